@@ -144,7 +144,13 @@ impl Amortised {
         let dir = self.work.join(format!("p{}", self.counter));
         self.counter += 1;
         self.last = dir.clone();
-        write_pkg(&dir, name, src, true)?;
+        // Every package compiled with the shared Engines gets its own package name: compiling
+        // unrelated programs under one package name (with recurring declaration names) in one
+        // Engines instance is something `forc build` never does, and it makes the compiler
+        // report spurious trait / type errors from stale declarations.
+        let _ = name;
+        let unique = Self::unique_name(src, self.counter);
+        write_pkg(&dir, &unique, src, true)?;
         let r = self.compile_dir(&dir, profile);
         r.map(|pkg| Compiled { pkg, dir })
     }
@@ -209,6 +215,17 @@ impl Amortised {
         }
         let (errors, _, _) = handler.consume();
         Ok((errors, produced))
+    }
+
+    /// write `src` as a fresh package (unique package name) and return its directory
+    pub fn write_unique(&mut self, src: &str) -> PathBuf {
+        let dir = self.scratch_dir();
+        let _ = write_pkg(&dir, &Self::unique_name(src, self.counter), src, true);
+        dir
+    }
+
+    pub fn unique_name(src: &str, counter: u64) -> String {
+        format!("g{:x}x{:012x}", counter, crate::common::hash64(src.as_bytes()) & 0xffff_ffff_ffff)
     }
 
     /// a fresh package directory name under this engine's work dir
